@@ -368,8 +368,16 @@ class PartialSchemas(PartialFactory):
 def check_types(schema: Type[MetadataSchema], *, recheck: bool = False):
     if schema is MetadataSchema or schema.__types_checked__ and not recheck:
         return
-    schema.__types_checked__ = True
+    schema.__types_checked__ = True  # (set first to terminate on recursive schemas)
+    try:
+        _check_types(schema, recheck=recheck)
+    except Exception:
+        # a schema that failed the check is not "checked", it must fail again next time
+        schema.__types_checked__ = False
+        raise
 
+
+def _check_types(schema: Type[MetadataSchema], *, recheck: bool):
     # recursively check compositional and inheritance dependencies
     for b in schema.__bases__:
         if issubclass(b, MetadataSchema):
